@@ -13,9 +13,15 @@ verbose = '-v' in sys.argv
 prop = run.load_prop(pid)
 core.repo_on_path()
 st = Stats()
+from harness import shapes
 cases = list(prop.cases(Rng(f"{pid}-0-{tier}"), tier))
+if getattr(prop, "SHAPES", True):
+    srng = Rng(f"{pid}-0-{tier}-shapes")
+    cases = [shapes.decorate(c, srng) for c in cases]
 recs, dis, fails = run.evaluate(prop, cases, st)
 print(len(recs), "cases;", len(dis), "disagreements;", len(fails), "oracle failures")
+if '-t' in sys.argv:
+    print({k: v for k, v in st.as_dict().items() if k.startswith(("hist", "layout"))})
 if verbose:
     for d in dis[:6]:
         print("DIS", d['disagreement'][:300], json.dumps(run.clean(d['case']), default=str)[:500])
